@@ -1,13 +1,13 @@
-SPECIFICATION MCSpec
+SPECIFICATION GSpec
 CONSTANTS
   Cases = {}
-  W64 = 16777216
-  W32 = 4096
+  W64 = 0
+  W32 = 0
   BW = 1000
   Bases = {0, 1, 13}
   Rates = {0, 1, 999, 1000, 1001, 2500, 500000, 999999, 1000000}
   IBaseMags = {0, 1, 7}
   IRateMags = {0, 1, 999, 1000, 500000, 999999, 1000000}
-  Heights = {0, 100, 4090, 4093}
-INVARIANTS TypeOK DecisionAgrees AcceptOnlyIf NoLoss FeeOperatorsExact
+  Heights = {0, 100, 800000}
+INVARIANTS Dump
 CHECK_DEADLOCK FALSE
